@@ -219,9 +219,19 @@ func ruleBuildPipeline(w *World, r *Report, rFill, rCycle, rLifetimes, rDeps, rS
 			"a provider can be built on a path on which "+what+" did not run (or its error was not checked): the step is skipped, conditional, or its result ignored")
 	}
 	need(rFill, "graph-filled", "the loop adding every descriptor to the graph")
+	stepName := func(display, fallback string) string {
+		if f := w.Fn(w.Godi, display); f != nil {
+			return f.Obj.Name()
+		}
+		return fallback
+	}
 	need(rCycle, "DetectCycles", "the cycle check (DetectCycles)")
-	need(rLifetimes, "validateLifetimes", "lifetime validation")
-	need(rDeps, "validateDependencies", "the missing-dependency check")
+	need(rLifetimes, stepName("(*collection).validateLifetimes", "validateLifetimes"), "lifetime validation")
+	depsName := "validateDependencies"
+	if f := presenceCheckFn(w); f != nil {
+		depsName = f.Obj.Name()
+	}
+	need(rDeps, depsName, "the missing-dependency check")
 	// singleton creation checked before the success return
 	if rSingletons != "" {
 		n := 0
@@ -520,10 +530,7 @@ func ruleGroupLinkGraph(w *World, r *Report, rule string) {
 				if cal == nil || w.Decls[cal] == nil || cal == link.Obj || cal == gr.updateDegrees.Obj {
 					continue
 				}
-				if !strings.Contains(strings.ToLower(cal.Name()), "cycle") {
-					continue
-				}
-				if w.Decls[cal].Pkg != w.Graph || cal.Name() == "findCyclePath" {
+				if w.Decls[cal].Pkg != w.Graph || !isCycleSearch(w, w.Decls[cal]) {
 					continue
 				}
 				n++
@@ -1001,8 +1008,8 @@ func checkC08(w *World, r *Report) {
 	r.Rule("R08.4", 1, "the runtime miss is a ResolutionError whose Cause is ErrServiceNotFound")
 
 	ruleBuildPipeline(w, r, "", "", "", "R08.1", "")
-	fi := w.Fn(w.Godi, "(*collection).validateDependencies")
-	if fi == nil {
+	fi := presenceCheckFn(w)
+	if false {
 		// role: the function called from doBuild that returns ErrServiceNotFound
 		for _, f := range w.FuncsOf(w.Godi) {
 			if f == ro.resolve {
@@ -1227,7 +1234,7 @@ func ruleOptionalOnly(w *World, r *Report, rule string) {
 	fi := top
 	for _, f := range w.Within(top, 2) {
 		for _, c := range callsIn(f.Decl.Body, true) {
-			if cal := callee(f.Pkg.TypesInfo, c); cal != nil && cal.Name() == "resolveFieldDependency" {
+			if cal := callee(f.Pkg.TypesInfo, c); w.IsFn(cal, w.Refl, "(*ParamObjectBuilder).resolveFieldDependency") {
 				fi = f
 			}
 		}
@@ -1240,7 +1247,7 @@ func ruleOptionalOnly(w *World, r *Report, rule string) {
 	ast.Inspect(fi.Decl.Body, func(x ast.Node) bool {
 		if as, ok := x.(*ast.AssignStmt); ok && len(as.Rhs) == 1 && len(as.Lhs) == 2 {
 			if c, ok := unparen(as.Rhs[0]).(*ast.CallExpr); ok {
-				if cal := callee(info, c); cal != nil && cal.Name() == "resolveFieldDependency" {
+				if cal := callee(info, c); w.IsFn(cal, w.Refl, "(*ParamObjectBuilder).resolveFieldDependency") {
 					errObj = objOf(info, as.Lhs[1])
 				}
 			}
@@ -1282,4 +1289,42 @@ func ruleOptionalOnly(w *World, r *Report, rule string) {
 		bad = "a failed resolution of a required field does not make BuildParamObject return the error"
 	}
 	r.Check(bad == "", rule, top.Name()+"#optional-only", fi.Decl.Pos(), true, "only fields tagged optional survive a failed resolution; any other failure is returned", bad)
+}
+
+// presenceCheckFn: the collection method that reports ErrServiceNotFound at build time.
+func presenceCheckFn(w *World) *FuncInfo {
+	if fi := w.Fn(w.Godi, "(*collection).validateDependencies"); fi != nil {
+		return fi
+	}
+	ro := resolveRoles(w)
+	var out *FuncInfo
+	for _, f := range w.FuncsOf(w.Godi) {
+		if f == ro.resolve || !recvIs(f, "collection") {
+			continue
+		}
+		uses := false
+		ast.Inspect(f.Decl.Body, func(x ast.Node) bool {
+			if id, ok := x.(*ast.Ident); ok && id.Name == "ErrServiceNotFound" {
+				uses = true
+			}
+			return true
+		})
+		if uses {
+			out = f
+		}
+	}
+	return out
+}
+
+// isCycleSearch: an unexported graph function that can return a CircularDependencyError
+// and walks the edge table (the DFS), as opposed to path reconstruction for the message.
+func isCycleSearch(w *World, fi *FuncInfo) bool {
+	if fi.Obj.Exported() {
+		return false
+	}
+	sig := fi.Obj.Type().(*types.Signature)
+	if sig.Results().Len() != 1 || !isErrorType(sig.Results().At(0).Type()) {
+		return false
+	}
+	return hasLiteralOf(w, fi, modPath+"/internal/graph", "CircularDependencyError", 0)
 }
